@@ -26,6 +26,8 @@ def run(rep, tier, seed):
     # FAT32 objects whose first cluster needs the high word of the entry, then loses it again
     for i in range(1 if tier == "quick" else 6):
         scripts.append(sessions.fat32_high_cluster_session(rng))
+    # the standard script on the boundary volumes (quick: the small ones; the invariants are evaluated after every call)
+    scripts += [sc_ for _, sc_ in sessions.matrix_sessions(rng, tier, lost_free=True, small_only=(tier == "quick"))]
     judged = sessions.run_judged(scripts, flags=("wf", "tree"), shards=16)
     checked_states = 0
     for jd in judged:
